@@ -355,8 +355,117 @@ pub fn run_c09(tier: &str, seed: u64) -> campaign::CampaignResult {
             report("C09", &known, &rep, &mut violations);
         }
     }
+    // identifier stress: one symbol of a generated program is renamed to a lexically valid but unusual
+    // identifier (digit after a letter, mixed case, doubled/trailing underscore, prime, keyword-like).
+    // Most of these are rejected by the casing rules today - then nothing is claimed; whatever IS accepted
+    // (now or after a change of those rules) must still yield Rust that compiles.
+    let ns = env_usize("EQV_NSTRESS", if tier == "thorough" { 2000 } else { 60 });
+    const LOWER: [&str; 14] = ["trans2", "p1", "q2r", "le2x", "a1_b2", "x_", "a__b", "aB", "r_1_2", "step_2b", "fn_x", "type_", "self_", "x'"];
+    const UPPER: [&str; 7] = ["A1", "Ab_c", "ABC", "T_x", "B2b", "Aa'", "Self_"];
+    let stress_base = draw_programs(seed ^ 0x57e5, &vec!["free".to_string(), "with_enums".to_string()], ns);
+    let stress: Vec<(String, String)> = stress_base
+        .iter()
+        .zip(pt::draw_tapes(seed ^ 0x57e6, ns, 8).into_iter())
+        .map(|(pc, tape)| {
+            let mut t = crate::gen::Tape::new(&tape);
+            let mut q = pc.program.clone();
+            let kind = t.pick(5);
+            let what;
+            match kind {
+                0 if q.rules.iter().any(|r| r.name.is_some()) => {
+                    let named: Vec<usize> = (0..q.rules.len()).filter(|&i| q.rules[i].name.is_some()).collect();
+                    let i = named[t.pick(named.len())];
+                    let n = LOWER[t.pick(LOWER.len())];
+                    q.rules[i].name = Some(n.to_string());
+                    what = format!("rule name {}", n);
+                }
+                1 | 0 => {
+                    let cands: Vec<usize> = (0..q.rels.len()).filter(|&r| !matches!(q.rels[r].kind, RelKind::Ctor(_))).collect();
+                    if cands.is_empty() {
+                        return (String::new(), String::new());
+                    }
+                    let r = cands[t.pick(cands.len())];
+                    let n = LOWER[t.pick(LOWER.len())];
+                    q.rels[r].name = n.to_string();
+                    what = format!("{} name {}", if q.rels[r].is_func() { "function" } else { "predicate" }, n);
+                }
+                2 => {
+                    let i = t.pick(q.types.len());
+                    let n = UPPER[t.pick(UPPER.len())];
+                    q.types[i].name = n.to_string();
+                    what = format!("type name {}", n);
+                }
+                3 => {
+                    let cands: Vec<usize> = (0..q.rels.len()).filter(|&r| matches!(q.rels[r].kind, RelKind::Ctor(_))).collect();
+                    if cands.is_empty() {
+                        return (String::new(), String::new());
+                    }
+                    let r = cands[t.pick(cands.len())];
+                    let n = UPPER[t.pick(UPPER.len())];
+                    q.rels[r].name = n.to_string();
+                    what = format!("constructor name {}", n);
+                }
+                _ => {
+                    // a variable: textual whole-token replacement in the printed program
+                    let src = print::plain(&q);
+                    let n = LOWER[t.pick(LOWER.len())];
+                    for v in ["x", "y", "z", "u", "v", "w"] {
+                        if src.contains(&format!("({}", v)) || src.contains(&format!(" {})", v)) || src.contains(&format!(", {}", v)) {
+                            let mut out = String::new();
+                            let b = src.as_bytes();
+                            let mut i = 0;
+                            while i < b.len() {
+                                let is_id = |c: u8| c.is_ascii_alphanumeric() || c == b'_' || c == b'\'';
+                                if is_id(b[i]) {
+                                    let st = i;
+                                    while i < b.len() && is_id(b[i]) {
+                                        i += 1;
+                                    }
+                                    let tok = &src[st..i];
+                                    out.push_str(if tok == v { n } else { tok });
+                                } else {
+                                    out.push(b[i] as char);
+                                    i += 1;
+                                }
+                            }
+                            return (format!("variable {}", n), out);
+                        }
+                    }
+                    return (String::new(), String::new());
+                }
+            }
+            (what, print::plain(&q))
+        })
+        .filter(|(w, _)| !w.is_empty())
+        .collect();
+    let stress_results: Vec<Result<bool, String>> = stress.par_iter().map(|(_, src)| c09_source_both(src)).collect();
+    for ((what, src), res) in stress.iter().zip(stress_results.iter()) {
+        ev.evaluations += 1;
+        ev.count("identifier_stress.programs", 1);
+        match res {
+            Ok(true) => {
+                ev.count("identifier_stress.accepted_and_compiles", 1);
+                ev.count(&format!("identifier_stress.accepted: {}", what), 1);
+            }
+            Ok(false) => ev.count("identifier_stress.rejected", 1),
+            Err(msg) => {
+                let rep = ProgReplay { kind: "c09".into(), property: "C09".into(), program: None, source: src.clone(), message: format!("{} ({})", msg, what), detail: json!({"generator": "identifier stress", "renamed": what}), seed };
+                let mut r2 = rep.clone();
+                // the recorded finding about primes covers every primed symbol name
+                if what.contains('\'') && !what.starts_with("variable") && msg.contains("rustc rejects") {
+                    r2.message = msg.clone();
+                    if let Some(k) = known.known("C09", "C09:primed-symbol-name") {
+                        println!("KNOWN-FINDING: property=C09 {}", k.what);
+                        ev.count("identifier_stress.known_finding_primed_symbol", 1);
+                        continue;
+                    }
+                }
+                report("C09", &known, &r2, &mut violations);
+            }
+        }
+    }
     ev.extra.insert("programs".into(), json!(ev.evaluations));
-    ev.rule = "programs from the typed generator (profile `wide`: arities up to 9, constants, nullary predicates, enums, plus the other profiles), each compiled by the repository CLI in module mode and in component mode (real rustc per rule) and linked into a driver that runs an empty history; plus modules derived from the full surface grammar (models with member types/predicates/functions/rules, Mor types, dom/cod, morphism application, enums, named arguments; mostly well-typed by construction, no reference semantics) whose module-mode output is compiled as a library and whose component build must succeed; non-trivial = accepted and has one of: relation with >= 5 columns, diagonal index, >= 3 index orders for one relation, enum match, rule with empty premise, model declaration; distinct by source hash".into();
+    ev.rule = "programs from the typed generator (profile `wide`: arities up to 9, constants, nullary predicates, enums, plus the other profiles), each compiled by the repository CLI in module mode and in component mode (real rustc per rule) and linked into a driver that runs an empty history; plus modules derived from the full surface grammar (models with member types/predicates/functions/rules, Mor types, dom/cod, morphism application, enums, named arguments; mostly well-typed by construction, no reference semantics) whose module-mode output is compiled as a library and whose component build must succeed; plus identifier stress (one symbol renamed to a lexically valid but unusual identifier; accepted ones must compile); non-trivial = accepted and has one of: relation with >= 5 columns, diagonal index, >= 3 index orders for one relation, enum match, rule with empty premise, model declaration; distinct by source hash".into();
     ev.assumptions = vec!["identifiers come from pools that avoid Rust keywords and names the generator emits".into()];
     ev.violations = violations as u64;
     ev.wall_s = start.elapsed().as_secs_f64();
